@@ -501,16 +501,31 @@ func (p *Parser) parseComponentStmt() ast.Statement {
 		return nil
 	}
 
+	hasSlots := false
+
 	if p.peekTokenIs(token.SLOT) {
 		p.nextToken() // skip ")"
 		stmt.Slots = p.parseSlots()
+		hasSlots = true
 	} else if p.peekTokenIs(token.HTML) && isWhitespace(p.peekToken.Literal) {
 		p.nextToken() // skip ")"
 
 		if p.peekTokenIs(token.SLOT) {
 			p.nextToken() // skip whitespace
 			stmt.Slots = p.parseSlots()
+			hasSlots = true
 		}
+	}
+
+	// a component with slots is closed by its own "@end"
+	if hasSlots && !p.curTokenIs(token.END) && !p.HasErrors() {
+		p.newError(
+			p.curToken.ErrorLine(),
+			fail.ErrWrongNextToken,
+			token.String(token.END),
+			token.String(p.curToken.Type),
+		)
+		return nil
 	}
 
 	p.components = append(p.components, stmt)
@@ -611,7 +626,7 @@ func (p *Parser) parseSlots() []*ast.SlotStmt {
 		p.nextToken() // skip block statement
 		p.nextToken() // skip "@end"
 
-		for p.curTokenIs(token.HTML) {
+		for p.curTokenIs(token.HTML) && isWhitespace(p.curToken.Literal) {
 			p.nextToken() // skip whitespace
 		}
 	}
